@@ -93,6 +93,7 @@ def _execute(program, stats, hist):
     cast_since_sim = False
     seqnames = []
     hazard = False
+    kept_hedger = pfn.Hedger(pfn.Naked(), ["zeros", "prev_hedge"])   # keeps its recurrent buffer between operations
     unknown_old = False   # after a default flip with declared None: old buffers are not judged
     for op in program["ops"]:
         seq = hist.seq
@@ -261,6 +262,8 @@ def _execute(program, stats, hist):
                 outs["hedge"] = hedger.compute_hedge(d)
                 outs["pl"] = hedger.compute_pl(d)
                 outs["pl_listed"] = pfn.Hedger(pfn.Naked(2), ["zeros"]).compute_pl(d, hedge=[p, d])
+                outs["kept_stateful_hedge"] = kept_hedger.compute_hedge(d)
+                outs["kept_stateful_pl"] = kept_hedger.compute_pl(d)
                 if program["world"]["derivatives"][0]["kind"] in ("EuropeanOption", "EuropeanBinaryOption") and pspec["kind"] in HAS_VOL \
                         and all(b.dtype == sd for n, b in bufs.items() if n not in user_buffers):
                     m = pfn.BlackScholes(d)
